@@ -10,6 +10,8 @@ def conds_Mux_serveHTTP : List String := [
    "if err != nil",
    "return err",
    "if sh := m.opts.statsHandler; sh != nil",
+   "defer func() { if !ended { sh.HandleRPC(ctx, &stats.End{ Client: false, BeginTime: beginTime, EndTime: time.Now(), Error: rerr, }) } }()",
+   "if !ended",
    "if isWebsocket",
    "if err != nil",
    "return err",
@@ -61,6 +63,7 @@ def conds_streamHTTP_RecvMsg : List String := [
    "if count == 0",
    "if err := s.params.set(args); err != nil",
    "return err",
+   "if sh := s.opts.statsHandler; sh != nil && !(s.method.hasBody && s.hasBody)",
    "return nil"
   ]
 
